@@ -291,6 +291,15 @@ def _debug_scan(ctx, prog, fn, stmts, report, depth=0, seen=None):
                 g = prog.callee_of(fn, c)
             except Exception:
                 g = None
+            if g is None and isinstance(c.func, ast.Name):
+                # a function defined right there, in the analysed function
+                nested = [d for d in ast.walk(fn.node) if isinstance(
+                    d, ast.FunctionDef) and d.name == c.func.id
+                    and d is not fn.node]
+                if len(nested) == 1:
+                    from ..model import FunctionInfo
+                    g = FunctionInfo(fn.module, nested[0])
+                    g.qual = '%s.<locals>.%s' % (fn.qual, nested[0].name)
             if g is not None and g.qual in seen:
                 if seen[g.qual]:
                     continue
